@@ -71,9 +71,13 @@ def reproduce(out, prop, r):
 
 def _beh_job(args):
     run_dir, version, env, num, sd, errlevels, exhaustive, start = args
+    scripts = None
+    if env == 'script':
+        rec, _ = pgen_export.grammar_record(pgen_export.grammar_text(version))
+        scripts, _ = parserb.arc_cover(rec, start)
     info, behs, res = parserb.behaviours(run_dir, version, env, num=num, seed=sd, errlevels=errlevels,
-                                         errbudget=len(errlevels), closeat=14 if not exhaustive else 0,
-                                         depth=26, workers=2, exhaustive_tokens=exhaustive, start=start)
+                                         errbudget=len(errlevels), closeat=14 if not (exhaustive or scripts) else 0,
+                                         depth=26, workers=2, exhaustive_tokens=exhaustive, start=start, scripts=scripts)
     rl = parserb.Relabel(info, version)
     lab = info['labels']
     outb = []
@@ -94,7 +98,7 @@ def _beh_job(args):
 
 
 def generate(out, tier, prop, envs=('valid', 'broken', 'tokenv'), versions=None, num=None, exhaustive_valid=0,
-             starts=('file_input',)):
+             starts=('file_input',), arc_cover=False):
     """Run ParserB with history (simulation per env mode; optionally exhaustive valid sentences) and return
     the behaviours with their renderings.  TLC checks NodesConform & co. on every state it generates."""
     rng = random.Random(seed() * 31 + 5)
@@ -110,6 +114,10 @@ def generate(out, tier, prop, envs=('valid', 'broken', 'tokenv'), versions=None,
                 lv = sorted(rng.sample(range(2, 13), 2)) if env == 'broken' else []
                 jobs.append((scratch.sub('g%d' % i), v, env, num, rng.randrange(1 << 30), lv, 0, 'file_input'))
                 i += 1
+            if arc_cover:
+                for st in starts:
+                    jobs.append((scratch.sub('g%d' % i), v, 'script', 0, 0, [], 0, st))
+                    i += 1
             if exhaustive_valid:
                 for st in starts:
                     jobs.append((scratch.sub('g%d' % i), v, 'valid', 0, 0, [], exhaustive_valid, st))
